@@ -36,11 +36,14 @@ package vm
 //@ ensures result != nil && result.sc != nil && result.cbe == v.cbe && result.flags == v.flags
 //@ ensures len(v.istack) > 0 ==> result == v.istack[len(v.istack)-1]   // its body, literally
 
+//@ prop C15
+// "Called by entry" is read off the chain of script contexts: the context has no caller, or its
+// caller has none. (Callers in the scope check see it through the ghost field cbe.)
+//@ spec cbeOf(c *Context) bool = c.sc.callingContext == nil || c.sc.callingContext.callingContext == nil
 //@ func (*Context).IsCalledByEntry
-//@ assumed
-//@ pure
-//@ requires c != nil
-//@ ensures result == c.cbe
+//@ requires c != nil && c.sc != nil
+//@ ensures[chain] result == cbeOf(c)
+//@ ensures[ghost!] result == c.cbe
 
 //@ func (*Context).GetCallFlags
 //@ assumed
@@ -189,7 +192,7 @@ package vm
 //@ assumed
 //@ modifies *s
 
-//@ prop C15,C16
+//@ prop C12,C15,C16
 // The context pushed by a load records exactly the caller, hash and flags it was given, and
 // hangs below the context that was current.
 //@ func (*VM).loadScriptWithCallingHash
@@ -199,6 +202,8 @@ package vm
 //@ requires v != nil
 //@ ensures[bound] len(v.istack) == old(len(v.istack)) + 1 && v.istack[len(v.istack)-1].sc.callingScriptHash == caller && v.istack[len(v.istack)-1].sc.callFlag == f && v.istack[len(v.istack)-1].sc.scriptHash == hash
 //@ ensures[chain] old(len(v.istack)) > 0 ==> v.istack[len(v.istack)-1].sc.callingContext == old(v.istack[len(v.istack)-1].sc)
+// (C12) every way of loading a script - not only CALL - is subject to the invocation depth limit.
+//@ ensures[depth] len(v.istack) <= MaxInvocationStackSize
 
 // A dynamically loaded script is called by the script that loads it (the current one), with the
 // flags asked for and no fixed hash of its own.
@@ -232,3 +237,23 @@ package vm
 //@ func (*VM).AddPicoGas
 //@ requires v != nil && v.gasConsumed != nil
 //@ modifies *v.gasConsumed
+
+// REMOVE on an Array or Struct (C12): what is released from the item counter is the element that
+// was at the index when the instruction started (not whatever sits there after the removal shifted
+// the rest), and at most that one release is made.
+//@ prop C12
+//@ package github.com/nspcc-dev/neo-go/pkg/vm/stackitem
+//@ func (*Array).Value
+//@ inline
+//@ func (*Struct).Value
+//@ inline
+//@ package github.com/nspcc-dev/neo-go/pkg/vm
+//@ cases (*VM).execute
+//@ case REMOVE_ARRAY
+//@ requires op == opcode.REMOVE && v.getPrice == nil && wfStack(v.estack) && len(v.estack.elems) >= 2 && is(v.estack.elems[len(v.estack.elems)-2].value, *stackitem.Array) && is(v.estack.elems[len(v.estack.elems)-1].value, *stackitem.BigInteger)
+//@ call (*refCounter).Remove requires[removed] arg1 == old(v.estack.elems[len(v.estack.elems)-2].value.(*stackitem.Array).value[stackitem.intOf(v.estack.elems[len(v.estack.elems)-1].value)])
+//@ ensures[once] ncalls("(*refCounter).Remove") <= 1
+//@ case REMOVE_STRUCT
+//@ requires op == opcode.REMOVE && v.getPrice == nil && wfStack(v.estack) && len(v.estack.elems) >= 2 && is(v.estack.elems[len(v.estack.elems)-2].value, *stackitem.Struct) && is(v.estack.elems[len(v.estack.elems)-1].value, *stackitem.BigInteger)
+//@ call (*refCounter).Remove requires[removed] arg1 == old(v.estack.elems[len(v.estack.elems)-2].value.(*stackitem.Struct).value[stackitem.intOf(v.estack.elems[len(v.estack.elems)-1].value)])
+//@ ensures[once] ncalls("(*refCounter).Remove") <= 1
